@@ -31,7 +31,6 @@ import sys
 import types
 from pathlib import Path
 
-from harness.props import c02
 from harness.translate import c17_tables
 
 ID = "C17"
@@ -51,8 +50,8 @@ LEVEL_NOTE = ("Trusted: Coq kernel, extraction, translator harness/translate/c17
               "of base expressions is C04's subject). The static_final chain model assumes the loaded tree holds exactly the generated "
               "members. Annotation and default expression text are opaque atoms (C03); setter/deleter labels are C02's. F6 (self-import in "
               "a package __init__) has a harness classifier but no Coq counterpart.")
-MODEL = ("Model.C17_agents", "run_C17")
-COQ_TARGETS = ["Proofs/C17_agents.vo"]
+MODEL = ("Model.C17_run", "run_C17_all")
+COQ_TARGETS = ["Proofs/C17_agents.vo", "Proofs/C17_bases.vo", "Model/C17_run.vo"]
 TRANSLATOR_NAME = "harness/translate/c17_tables.py"
 RULE = ("seeded random importable packages (7-9 modules over 3 nesting levels, every definition form, signatures from C02's count vectors, "
         "1-2 level inheritance incl. imported bases, docstrings of random indentation shapes, absolute/relative/as-named imports of classes, "
@@ -71,7 +70,62 @@ ASSUMPTIONS = ["generated modules bind plain literal values, def/async def, clas
 PRIM_NAMES = ["ismodule", "isclass", "parent_is_class", "dict_static", "dict_classm", "cached", "isfunctype", "isbuiltin", "iscoroutine",
               "ismethoddescriptor", "isfunction", "callable", "isgetset", "isproperty"]
 SHARED = ["async", "staticmethod", "classmethod", "property", "cached"]
-KINDS = c02.KINDS
+KINDS = {"positional-only": "PO", "positional or keyword": "PK", "variadic positional": "VP", "keyword-only": "KO", "variadic keyword": "VK"}
+INSPECT_KINDS = {inspect.Parameter.POSITIONAL_ONLY: "PO", inspect.Parameter.POSITIONAL_OR_KEYWORD: "PK",
+                 inspect.Parameter.VAR_POSITIONAL: "VP", inspect.Parameter.KEYWORD_ONLY: "KO", inspect.Parameter.VAR_KEYWORD: "VK"}
+
+
+def render_sig(v, ann: bool):
+    """v = (npo, nar, va, nko, kw, ndef, kwmask). Returns parameter-list text; atoms: annotations A<k>, defaults 100+k."""
+    npo, nar, va, nko, kw, ndef, kwmask = v
+    parts = []
+    k = 0
+    pos = [f"p{i}" for i in range(npo)] + [f"q{i}" for i in range(nar)]
+    first_def = len(pos) - ndef
+    for i, n in enumerate(pos):
+        s = n
+        if ann:
+            s += f": A{k}"
+        if i >= first_def:
+            s += (" = " if ann else "=") + str(100 + k)
+        k += 1
+        parts.append(s)
+        if i == npo - 1:
+            parts.append("/")
+    if va:
+        parts.append("*r" + (f": A{k}" if ann else ""))
+        k += 1
+    elif nko:
+        parts.append("*")
+    for i in range(nko):
+        s = f"k{i}"
+        if ann:
+            s += f": A{k}"
+        if kwmask >> i & 1:
+            s += (" = " if ann else "=") + str(100 + k)
+        k += 1
+        parts.append(s)
+    if kw:
+        parts.append("**w" + (f": A{k}" if ann else ""))
+    return ", ".join(parts)
+
+
+def _atom(node):
+    if node is None:
+        return None
+    if isinstance(node, ast.Name) and node.id[0] == "A":
+        return int(node.id[1:])
+    if isinstance(node, ast.Constant) and isinstance(node.value, int):
+        return node.value
+    raise ValueError(ast.dump(node))
+
+
+def abstract_arguments(a: ast.arguments):
+    """ast.arguments -> the model's `arguments` record (Model/C02_params.v dec_arguments)"""
+    arg = lambda x: [x.arg, [] if x.annotation is None else [_atom(x.annotation)]]
+    return [[arg(x) for x in a.posonlyargs], [arg(x) for x in a.args], [] if a.vararg is None else [arg(a.vararg)],
+            [arg(x) for x in a.kwonlyargs], [[] if d is None else [_atom(d)] for d in a.kw_defaults],
+            [] if a.kwarg is None else [arg(a.kwarg)], [_atom(d) for d in a.defaults]]
 
 
 def translate(ctx):
@@ -217,6 +271,8 @@ class Gen:
         self.extra_tops = []
         self.n_annotated = 0
         self.ann_pool = ["Missing", "N0"]
+        self.cinfo = {}        # (defining module, qualified name) -> {"params", "gensub", "is_protocol", "proto_desc"}
+        self.ext = {}          # module -> {name bound by an import from outside the package: dotted target}
         self.mods = self.layout()
         shadows = self.gen_shadows()
         self.mods = shadows + self.mods
@@ -273,10 +329,10 @@ class Gen:
         `if typing.TYPE_CHECKING:`, a nested class (class-scope name), or nothing at all.  `first, <any legal list>` is always legal."""
         rng = self.rng
         v = self.rand_sig()
-        plain = c02.render_sig(v, False)
+        plain = render_sig(v, False)
         src, ret = plain, ""
         if rng.random() < 0.3:
-            src = re.sub(r": A\d+", lambda m: ': "%s"' % rng.choice(self.ann_pool), c02.render_sig(v, True))
+            src = re.sub(r": A\d+", lambda m: ': "%s"' % rng.choice(self.ann_pool), render_sig(v, True))
             if rng.random() < 0.5:
                 ret = ' -> "%s"' % rng.choice(self.ann_pool)
             if src != plain or ret:
@@ -308,6 +364,27 @@ class Gen:
             self.meta[f"{mod}.typing"] = {"form": "extimport", "target": "typing"}
             self.meta[f"{mod}.Tc{n}"] = {"form": "typeguarded", "target": f"{src}.{n}"}
             self.ann_pool = [f"Tc{n}", f"Tc{n}", "Missing", "N0"]
+        kit = None
+        self.ext[mod] = {}
+        if rng.random() < 0.55:
+            # generic / protocol classes: `from typing import ...` (names) or `import typing` (attribute chains)
+            kit = {"style": rng.choice(["from", "attr"]), "tv": f"TV{tag}"}
+            if kit["style"] == "from":
+                names = ["Generic", "TypeVar", "Protocol", "List", "Dict"]
+                body.append("from typing import " + ", ".join(names))
+                for n in names:
+                    self.meta[f"{mod}.{n}"] = {"form": "extimport", "target": f"typing.{n}"}
+                    self.ext[mod][n] = f"typing.{n}"
+                body.append(f'{kit["tv"]} = TypeVar("{kit["tv"]}")')
+            else:
+                if not guarded:
+                    body.append("import typing")
+                    self.meta[f"{mod}.typing"] = {"form": "extimport", "target": "typing"}
+                body.append(f'{kit["tv"]} = typing.TypeVar("{kit["tv"]}")')
+            self.meta[f"{mod}.{kit['tv']}"] = {"form": ["value", "mod"], "value": "TypeVar"}
+            exports[kit["tv"]] = {"kind": "value", "defmod": mod, "defname": kit["tv"], "chain": []}
+        if guarded or (kit and kit["style"] == "attr"):
+            self.ext[mod]["typing"] = "typing"
         for i in range(rng.randint(0, 2)):
             name = f"V{i}{tag}"
             value = rng.choice(VALUES)
@@ -325,25 +402,14 @@ class Gen:
             exports[name] = {"kind": "asyncfunc" if is_async else "func", "defmod": mod, "defname": name, "chain": []}
         # imports from lower modules come after this module's own functions/values and before its classes (imported bases)
         body += self.gen_imports(mod, init, exports)
-        local_classes = []
-        importable_bases = [n for n, o in exports.items() if o["kind"] == "class" and o["chain"]]
-        for i in range(rng.randint(1, 2)):
+        local_classes = []          # [(name, info)] in definition order
+        for i in range(rng.randint(1, 3 if kit else 2)):
             name = f"K{i}{tag}"
-            bases = []
-            r = rng.random()
-            roots = [c for c, b in local_classes if not b]
-            if r < 0.25 and local_classes:
-                bases = [rng.choice(local_classes)[0]]
-            elif r < 0.4 and len(roots) >= 2:
-                bases = rng.sample(roots, 2)
-            elif r < 0.6 and importable_bases:
-                bases = [rng.choice(importable_bases)]
-            elif r < 0.68:
-                bases = ["Exception"]
-            lines, nf = self.gen_class(mod, init, (name,), bases, 0, exports)
+            specs = self.choose_bases(mod, exports, local_classes, kit)
+            lines, nf = self.gen_class(mod, init, (name,), specs, 0, exports, [n for n, _ in local_classes])
             need_functools |= nf
             body += lines
-            local_classes.append((name, bases))
+            local_classes.append((name, self.cinfo[(mod, name)]))
             exports[name] = {"kind": "class", "defmod": mod, "defname": name, "chain": []}
         if rng.random() < 0.4:
             names = [n for n in exports if not n.startswith("_")]
@@ -359,14 +425,101 @@ class Gen:
         self.files_mods = {m for m, _ in self.mods}
         self.exports[mod] = exports
 
-    def gen_class(self, mod, init, qual, bases, depth, exports):
+    def choose_bases(self, mod, exports, local_classes, kit):
+        """Base list of a module-level class: [{"src", "expr", "val", "info"?}].  expr: ["name", n] | ["attr", root, [segs]] | ["sub", e];
+        val (what the head denotes at runtime): ["class", path, Generic-in-MRO] | ["typingalias", written path, origin path]."""
+        rng = self.rng
+
+        def cls_spec(bound, defmod, defname, sub=None):
+            info = self.cinfo[(defmod, defname)]
+            expr, src = ["name", bound], bound
+            if sub:
+                expr, src = ["sub", expr], f"{bound}[{sub}]"
+            return {"src": src, "expr": expr, "val": ["class", defmod.split(".") + defname.split("."), 1 if info["gensub"] else 0], "info": info, "sub": sub}
+
+        def typ_spec(n, sub=None, val=None):
+            if kit["style"] == "from":
+                expr, src = ["name", n], n
+            else:
+                expr, src = ["attr", "typing", [n]], f"typing.{n}"
+            if sub:
+                expr, src = ["sub", expr], f"{src}[{sub}]"
+            return {"src": src, "expr": expr, "val": val or ["class", ["typing", n], 1], "typing": n, "sub": sub}
+
+        def builtin_spec(n, sub=None):
+            expr, src = ["name", n], n
+            if sub:
+                expr, src = ["sub", expr], f"{n}[{sub}]"
+            return {"src": src, "expr": expr, "val": ["class", ["builtins", n], 0], "builtin": n, "sub": sub}
+
+        known = [(n, mod, n) for n, _ in local_classes]
+        known += [(n, o["defmod"], o["defname"]) for n, o in exports.items() if o["kind"] == "class" and o["chain"] and (o["defmod"], o["defname"]) in self.cinfo]
+        info_of = lambda k: self.cinfo[(k[1], k[2])]
+        generics = [k for k in known if info_of(k)["params"]]
+        protos = [k for k in known if info_of(k)["is_protocol"]]
+        options = [("plain", 40), ("object", 3), ("list", 3)]
+        if kit:
+            options += [("generic-root", 14), ("protocol-root", 8), ("typing-alias", 3 if kit["style"] == "from" else 0)]
+            options += [("generic-sub", 22 if generics else 0), ("protocol-sub", 10 if protos else 0)]
+        pick = rng.choices([o for o, _ in options], [w for _, w in options])[0]
+        tv = kit["tv"] if kit else None
+        if pick == "generic-root":
+            return [typ_spec("Generic", tv)]
+        if pick == "protocol-root":
+            return [typ_spec("Protocol", tv if rng.random() < 0.5 else None)]
+        if pick == "generic-sub":
+            g = rng.choice(generics)
+            q = rng.random()
+            if q < 0.3:
+                return [cls_spec(*g)]                                  # plain subclass of a generic class (no __orig_bases__ of its own)
+            if q < 0.6:
+                return [cls_spec(*g, sub="int")]
+            if q < 0.9:
+                return [cls_spec(*g, sub=tv), typ_spec("Generic", tv)]
+            return [typ_spec("Generic", tv), cls_spec(*g, sub=tv)]     # CPython drops this Generic[T] (a later base is a generic alias)
+        if pick == "protocol-sub":
+            g = rng.choice(protos)
+            q = rng.random()
+            if q < 0.5:
+                return [cls_spec(*g)]                                  # explicit implementation of a protocol
+            if q < 0.75 or not info_of(g)["params"]:
+                return [cls_spec(*g), typ_spec("Protocol")]
+            return [cls_spec(*g, sub="int"), typ_spec("Protocol")]
+        if pick == "typing-alias":
+            n, sub, origin = rng.choice([("List", "int", "list"), ("Dict", "str, int", "dict")])
+            return [typ_spec(n, sub if rng.random() < 0.7 else None, ["typingalias", ["typing", n], ["builtins", origin]])]
+        if pick == "object":
+            return [builtin_spec("object")]
+        if pick == "list":
+            return [builtin_spec("list", "int")]
+        roots = [k for k in known if info_of(k)["root"] and k[1] == mod]
+        plain = [("single", 30 if known else 0), ("two-roots", 12 if len(roots) >= 2 else 0), ("exception", 8), ("none", 50)]
+        pick = rng.choices([o for o, _ in plain], [w for _, w in plain])[0]
+        if pick == "single":
+            return [cls_spec(*rng.choice(known))]
+        if pick == "two-roots":
+            return [cls_spec(*k) for k in rng.sample(roots, 2)]
+        if pick == "exception":
+            return [builtin_spec("Exception")]
+        return []
+
+    def gen_class(self, mod, init, qual, specs, depth, exports, outer=()):
         rng = self.rng
         ind1 = " " * (4 * depth + 4)
         path = f"{mod}." + ".".join(qual)
+        bases = [sp["src"] for sp in specs]
         L = [f"{' ' * (4 * depth)}class {qual[-1]}{'(' + ', '.join(bases) + ')' if bases else ''}:"]
         d = gen_doc(rng)
         L += render_doc(d, 4 * depth + 4)
-        self.meta[path] = {"form": ["class", "cls" if depth else "mod"], "doc": d, "bases": bases}
+        self.meta[path] = {"form": ["class", "cls" if depth else "mod"], "doc": d, "bases": specs, "mod": mod, "qual": list(qual)}
+        direct_t = [sp.get("typing") for sp in specs]
+        infos = [sp["info"] for sp in specs if "info" in sp]
+        info = {"params": any(sp.get("typing") in ("Generic", "Protocol") and sp.get("sub") for sp in specs) or any("info" in sp and sp.get("sub") not in (None, "int") for sp in specs),
+                "gensub": any(t is not None for t in direct_t) or any(i["gensub"] for i in infos),
+                "is_protocol": "Protocol" in direct_t,
+                "proto_desc": "Protocol" in direct_t or any(i["proto_desc"] for i in infos),
+                "root": not specs}
+        self.cinfo[(mod, ".".join(qual))] = info
         need_functools = False
         n_before = len(L)
         if rng.random() < 0.5:
@@ -421,9 +574,22 @@ class Gen:
             hop = {"mod": mod, "init": init, "imp": imp, "cur": path, "src": h["src"], "srcname": h["srcname"]}
             self.meta[f"{path}.{bound}"] = {"form": ["imported", "cls", o["kind"]], "origin": o, "chain": [hop] + o["chain"][1:], "name": bound}
         if depth < 2 and rng.random() < (0.45 if depth == 0 else 0.3):
-            lines, nf = self.gen_class(mod, init, qual + (f"N{depth}",), [], depth + 1, exports)
+            nspecs = []
+            if outer and rng.random() < 0.35:
+                # a base named in a class body: looked up in the enclosing scopes (here: found in the module)
+                b = rng.choice(list(outer))
+                nspecs = [{"src": b, "expr": ["name", b], "val": ["class", mod.split(".") + [b], 1 if self.cinfo[(mod, b)]["gensub"] else 0], "info": self.cinfo[(mod, b)], "sub": None}]
+            nname = f"N{depth}"
+            lines, nf = self.gen_class(mod, init, qual + (nname,), nspecs, depth + 1, exports, outer)
             L += lines
             need_functools |= nf
+            if rng.random() < 0.25:
+                # a sibling nested class deriving from it: the base name is bound in the class body itself
+                sib = ".".join(qual + (nname,))
+                sspec = [{"src": nname, "expr": ["name", nname], "val": ["class", mod.split(".") + list(qual) + [nname], 1 if self.cinfo[(mod, sib)]["gensub"] else 0], "info": self.cinfo[(mod, sib)], "sub": None}]
+                lines, nf = self.gen_class(mod, init, qual + (nname + "b",), sspec, depth + 1, exports, ())
+                L += lines
+                need_functools |= nf
         if len(L) == n_before:
             L.append(f"{ind1}pass")
         return L, need_functools
@@ -604,6 +770,41 @@ def lookup_summary(tree, rel):
     return cur
 
 
+def norm_bases(bases):
+    """Base paths as compared between the agents: builtins are written without their module, and `object` -- which every class has
+    at runtime whether it was written or not (only the static agent can know that it was) -- is left out."""
+    out = [x[9:] if x.startswith("builtins.") else x for x in bases]
+    return [x for x in out if x != "object"]
+
+
+# names that typing.Protocol's __init_subclass__ / abc.ABCMeta store in every class below Protocol (stdlib-provided, not written in the
+# class body): name -> what the Inspector makes of them
+PROTOCOL_PROVIDED = {"_abc_impl": ("attribute", None), "_is_protocol": ("attribute", None),
+                     "__subclasshook__": ("alias", "typing._proto_hook"), "__init__": ("alias", "typing._no_init_or_replace_init")}
+
+
+def live_object(path):
+    """The runtime object at a dotted path of an imported package (module prefix from sys.modules, then own attributes), or None."""
+    parts = path.split(".")
+    for k in range(len(parts), 0, -1):
+        m = sys.modules.get(".".join(parts[:k]))
+        if m is not None:
+            obj = m
+            try:
+                for part in parts[k:]:
+                    obj = vars(obj)[part]
+            except (KeyError, TypeError):
+                return None
+            return obj
+    return None
+
+
+def below_protocol(path):
+    import typing
+    cls = live_object(path)
+    return inspect.isclass(cls) and typing.Protocol in cls.__mro__
+
+
 def compare_trees(st, dy, path, top_st, diffs, in_class=False):
     """Append (path, what, static, dynamic, classifier_hint) for every difference outside the allowed ones."""
     sm, dm = st.get("members", {}), dy.get("members", {})
@@ -614,6 +815,11 @@ def compare_trees(st, dy, path, top_st, diffs, in_class=False):
             # allowed: interpreter-provided dunder attributes
             if is_dunder(name) and b["t"] == "attribute":
                 continue
+            # allowed: what the typing / abc machinery stores in the classes below typing.Protocol
+            if in_class and name in PROTOCOL_PROVIDED and below_protocol(path):
+                kind, target = PROTOCOL_PROVIDED[name]
+                if b["t"] == kind and (target is None or b.get("target") == target):
+                    continue
             diffs.append((p, "only-dynamic", None, b, {}))
             continue
         if b is None:
@@ -647,8 +853,7 @@ def compare_trees(st, dy, path, top_st, diffs, in_class=False):
         if a["t"] == "function" and a["params"] != b["params"]:
             diffs.append((p, "params", a["params"], b["params"], {"labels": sa}))
         if a["t"] == "class":
-            nb = [x[9:] if x.startswith("builtins.") else x for x in b["bases"]]
-            if a["bases"] != nb:
+            if norm_bases(a["bases"]) != norm_bases(b["bases"]):
                 diffs.append((p, "bases", a["bases"], b["bases"], {}))
         if a["t"] in ("module", "class", "function") or "property" in sa:
             if a["doc"] != b["doc"]:
@@ -659,7 +864,85 @@ def compare_trees(st, dy, path, top_st, diffs, in_class=False):
             compare_trees(a, b, p, top_st, diffs, in_class=a["t"] == "class")
 
 
-def classify(diff, gen, model_doc):
+def hops_of(chain):
+    return [[[x["mod"].split("."), 1 if x["init"] else 0], x["imp"]] for x in chain]
+
+
+def scope_frames(gen, mod, qual):
+    """The scopes a `class` statement is written in, innermost first, as the model's frames: [is_class, name, [[name, binding]]];
+    binding = ["local"] | ["chain", hops, defining module, defined name] | ["ext", target path]."""
+    frames = []
+    for k in range(len(qual) - 1, 0, -1):
+        prefix = f"{mod}." + ".".join(qual[:k]) + "."
+        table = []
+        for path, m in gen.meta.items():
+            if path.startswith(prefix) and "." not in path[len(prefix):] and isinstance(m.get("form"), list):
+                if m["form"][0] == "imported" and m.get("chain"):
+                    o = m["origin"]
+                    table.append([path[len(prefix):], ["chain", hops_of(m["chain"]), o["defmod"].split("."), o["defname"]]])
+                else:
+                    table.append([path[len(prefix):], ["local"]])
+        frames.append([1, qual[k - 1], table])
+    table = []
+    for name, o in gen.exports.get(mod, {}).items():
+        if o.get("via_import"):
+            table.append([name, ["ext", ((o["defmod"] + ".") if o["defmod"] else "").split(".")[:-1] + [o["defname"]]]])
+        elif o["chain"]:
+            table.append([name, ["chain", hops_of(o["chain"]), o["defmod"].split("."), o["defname"]]])
+        else:
+            table.append([name, ["local"]])
+    for name, target in gen.ext.get(mod, {}).items():
+        table.append([name, ["ext", target.split(".")]])
+    frames.append([0, mod, table])
+    return frames
+
+
+def bases_query(gen, meta):
+    return ["bases", scope_frames(gen, meta["mod"], meta["qual"]), [[sp["expr"], sp["val"]] for sp in meta["bases"]]]
+
+
+def rewrites_py(specs):
+    """Python mirror of the Coq predicate `rewrites` on the generated base shapes (used only when the model is unavailable)."""
+    kinds = []
+    for sp in specs:
+        if sp["val"][0] == "typingalias":
+            kinds.append("typing-alias")
+        elif sp.get("typing") == "Generic" and sp.get("sub"):
+            kinds.append("generic-t")
+        elif sp.get("sub") and sp["val"][0] == "class" and sp["val"][2]:
+            kinds.append("alias")
+        elif sp.get("typing") == "Protocol":
+            kinds.append("protocol-t" if sp.get("sub") else "protocol")
+        else:
+            kinds.append("class")
+    for i, k in enumerate(kinds):
+        if k == "typing-alias":
+            return True
+        if k == "generic-t" and ("protocol" in kinds or any(x in ("alias", "typing-alias", "protocol-t") for x in kinds[i + 1:])):
+            return True
+    return False
+
+
+def check_bases_cpython(st, dy, path, diffs):
+    """Every class: the Inspector's bases against CPython's __bases__ (exactly, `object` left out), and the static bases against them
+    (modulo norm_bases).  Appended like compare_trees differences."""
+    sm, dm = st.get("members", {}), dy.get("members", {})
+    for name, a in sm.items():
+        p = f"{path}.{name}"
+        b = dm.get(name)
+        if a["t"] == "class":
+            cls = live_object(p)
+            if inspect.isclass(cls):
+                cpy = [f"{x.__module__}.{x.__qualname__}" for x in cls.__bases__ if x is not object]
+                if b is not None and b["t"] == "class" and b["bases"] != cpy:
+                    diffs.append((p, "bases-dynamic-vs-cpython", cpy, b["bases"], {}))
+                if norm_bases(a["bases"]) != norm_bases(cpy):
+                    diffs.append((p, "bases-static-vs-cpython", a["bases"], cpy, {}))
+        if a["t"] in ("module", "class") and b is not None and b["t"] == a["t"]:
+            check_bases_cpython(a, b, p, diffs)
+
+
+def classify(diff, gen, ctx):
     """Known-gap classifiers (Python mirrors of the Coq predicates / the model's verdict). Returns a finding id or None."""
     p, what, a, b, hint = diff
     meta = gen.meta.get(p, {}) if gen is not None else {}
@@ -678,8 +961,18 @@ def classify(diff, gen, model_doc):
         # ... and when the twin module object is bound inside a class body of <pkg>.core, leaving that class makes the parent of the
         # replacement Module (the package) the current object: the rest of core's members land in the package itself
         if gen.twin_module_in_class and what == "only-dynamic" and p.rsplit(".", 1)[0] == gen.pkg \
-                and p.rsplit(".", 1)[1] in set(gen.exports[core]) | {"functools"}:
+                and p.rsplit(".", 1)[1] in set(gen.exports[core]) | {"functools"} | set(gen.ext.get(core, {})):
             return "C17-F4"
+    if what in ("bases", "bases-static-vs-cpython") and meta.get("bases") and gen is not None:
+        # F8: class creation rewrites the written bases (__mro_entries__); the faithful model must reproduce both lists
+        if ctx is not None and ctx.driver is not None:
+            out = ctx.model([bases_query(gen, meta)])[0]
+            if out != ["bad-input"] and out[3] == 1 and out[0] == a and out[2]:
+                runtime = out[1][0] if what == "bases" else [x for x in out[2][0] if x != "builtins.object"]
+                if runtime == b:
+                    return "C17-F8"
+        elif rewrites_py(meta["bases"]):
+            return "C17-F8"
     if what == "only-static" and isinstance(a, dict) and a["t"] == "alias" and gen is not None:
         # `import pkg.sub` inside pkg/__init__.py: the package object is skipped by _pick_member (it is its own ancestor)
         if p == f"{gen.pkg}.{gen.pkg}" and a["target"] == gen.pkg:
@@ -724,7 +1017,7 @@ def params_from_summary(ps):
 def oracle_signature(obj):
     out = []
     for p in inspect.signature(obj).parameters.values():
-        k = c02.INSPECT_KINDS[p.kind]
+        k = INSPECT_KINDS[p.kind]
         d = [] if p.default is inspect.Parameter.empty else [p.default]
         req = 1 if (p.default is inspect.Parameter.empty and k not in ("VP", "VK")) else 0
         out.append([p.name, [], k, d, req])
@@ -859,6 +1152,52 @@ def check_package(ctx, gen, root, st, dy, a, b):
             ctx.observe("inspect_child", out[1][0] if out[1][0] != "obj" else out[1][1])
         ask(["child", prims, env, cur.split("."), name, has_file], cb_child)
 
+        if form[0] == "class" and "bases" in meta:
+            specs = meta["bases"]
+
+            def cb_bases(out, path=path, sa=sa, da=da, raw=raw, specs=specs):
+                ctx.count("bases_ties")
+                ctx.observe("bases_shape", ",".join(("typing." + sp["typing"] if "typing" in sp else sp.get("builtin") or "class") + ("[]" if sp.get("sub") else "")
+                                                    for sp in specs) or "-")
+                ctx.observe("bases_rewritten", out[3])
+                live = [f"{x.__module__}.{x.__qualname__}" for x in raw.__bases__]
+                if out[2] != [live]:
+                    ctx.tie_failure("oracle", "cpython_bases(model) vs cls.__bases__", {"model": out[2], "cpython": live}, {"path": path, "bases": [sp["src"] for sp in specs]})
+                if sa is not None and sa["t"] == "class" and out[0] != sa["bases"]:
+                    ctx.tie_failure("correspondence", "static_bases(model) vs the visited Class.bases (resolved)", {"model": out[0], "impl": sa["bases"]}, {"path": path, "bases": [sp["src"] for sp in specs]})
+                if gen.twin_module and path.startswith(gen.pkg + ".core"):
+                    return      # F4 (module variant) clobbers this module's inspected tree
+                if da is not None and da["t"] == "class" and out[1] != [da["bases"]]:
+                    ctx.tie_failure("correspondence", "inspector_bases(model) vs the inspected Class.bases", {"model": out[1], "impl": da["bases"]}, {"path": path, "bases": [sp["src"] for sp in specs]})
+            ask(bases_query(gen, meta), cb_bases)
+            # (O) what each written base head denotes at runtime
+            for sp in specs:
+                head = sp["expr"]
+                while head[0] == "sub":
+                    head = head[1]
+                obj = None
+                if head[0] == "name":
+                    for holder in [parent] + ([module] if parent is not module else []):
+                        if head[1] in vars(holder):
+                            obj = vars(holder)[head[1]]
+                            break
+                    else:
+                        import builtins
+                        obj = getattr(builtins, head[1], None)
+                else:
+                    obj = vars(module).get(head[1])
+                    for seg in head[2]:
+                        obj = getattr(obj, seg, None)
+                import typing
+                if inspect.isclass(obj):
+                    got = ["class", obj.__module__.split(".") + obj.__qualname__.split("."), 1 if typing.Generic in obj.__mro__ else 0]
+                elif isinstance(obj, typing._BaseGenericAlias) and getattr(obj, "_name", None):
+                    got = ["typingalias", ["typing", obj._name], obj.__origin__.__module__.split(".") + [obj.__origin__.__qualname__]]
+                else:
+                    got = ["other", repr(obj)]
+                if got != sp["val"]:
+                    ctx.tie_failure("oracle", "generated base head denotation vs the live object", {"generator": sp["val"], "cpython": got}, {"path": path, "base": sp["src"]})
+
         if form[0] == "imported" and meta.get("chain"):
             chain = meta["chain"]
             h = chain[0]
@@ -899,7 +1238,7 @@ def check_package(ctx, gen, root, st, dy, a, b):
 
         if "sig" in meta:
             fn_src = f"def f({meta['sig']}): ...\n"
-            args = c02.abstract_arguments(ast.parse(fn_src).body[0].args)
+            args = abstract_arguments(ast.parse(fn_src).body[0].args)
 
             def cb_params(out, path=path, sa=sa, da=da, raw=raw, meta=meta, parent=parent, name=name):
                 ctx.count("param_ties")
@@ -965,10 +1304,11 @@ def run_packages(ctx, n, label):
             a, b = summarize_root(st), summarize_root(dy)
             diffs = []
             compare_trees(a, b, pkg, a, diffs)
+            check_bases_cpython(a, b, pkg, diffs)
             ctx.count("packages")
             ctx.count("members_compared", sum(1 for m in gen.meta.values() if isinstance(m.get("form"), list)))
             for d in diffs:
-                fid = classify(d, gen, model_doc if ctx.driver is not None else None)
+                fid = classify(d, gen, ctx)
                 ctx.observe("difference", f"{d[1]}:{fid or 'UNEXPLAINED'}")
                 ctx.property_failure({"files": gen.files, "pkg": pkg, "member": d[0]}, {"what": d[1], "static": d[2], "dynamic": d[3]}, finding=fid)
             if ctx.driver is not None:
@@ -1238,6 +1578,7 @@ WITNESS_FILES = {
     "sub.py": "",
     "_a.py": "def tw(): ...\n",
     "a.py": "from {pkg}._a import tw\n",
+    "gen.py": "from typing import Generic, List, TypeVar\nT = TypeVar('T')\nclass G(Generic[T]): ...\nclass L(List[int]): ...\nclass K(Generic[T], G[T]): ...\n",
 }
 
 
@@ -1252,6 +1593,9 @@ def replay_witnesses(ctx):
         seen = {
             "C17-F4": st["a"].members["tw"].is_alias and not dy["a"].members["tw"].is_alias,
             "C17-F6": pkg in st.members and pkg not in dy.members,
+            "C17-F8": ([base_path(st["gen.L"], x) for x in st["gen.L"].bases], [str(x) for x in dy["gen.L"].bases],
+                       [base_path(st["gen.K"], x) for x in st["gen.K"].bases], [str(x) for x in dy["gen.K"].bases])
+                      == (["typing.List"], ["builtins.list", "typing.Generic"], ["typing.Generic", f"{pkg}.gen.G"], [f"{pkg}.gen.G"]),
         }
     except Exception as e:  # noqa: BLE001
         ctx.tie_failure("harness", "witness replay", f"{type(e).__name__}: {e}")
@@ -1277,6 +1621,7 @@ def replay_corpus(ctx):
             a, b = summarize_root(st), summarize_root(dy)
             diffs = []
             compare_trees(a, b, case["pkg"], a, diffs)
+            check_bases_cpython(a, b, case["pkg"], diffs)
             ctx.count("corpus_cases")
             ctx.case({"corpus": f.name}, True)
             for d in diffs:
@@ -1343,6 +1688,7 @@ def replay(ctx, data):
         a, b = summarize_root(st), summarize_root(dy)
         diffs = []
         compare_trees(a, b, pkg, a, diffs)
+        check_bases_cpython(a, b, pkg, diffs)
         for d in diffs:
             print(d[0], d[1], json.dumps(d[2])[:300], "|", json.dumps(d[3])[:300])
     finally:
